@@ -96,13 +96,17 @@ func (m *c06Mon) onEnd(n string) {
 func c05Node(key string, log *vLog, mon *c06Mon) *Lambda {
 	return InvokableLambda(func(ctx context.Context, in map[string]any) (map[string]any, error) {
 		if mon != nil {
+			vMu.Lock()
 			mon.onStart(key)
+			vMu.Unlock()
 		}
 		x := vFold(in)
-		log.execs = append(log.execs, vExec{key, x})
+		log.add(key, x)
 		out := map[string]any{key: vsymUF("f_"+key, x)}
 		if mon != nil {
+			vMu.Lock()
 			mon.onEnd(key)
+			vMu.Unlock()
 		}
 		return out, nil
 	})
@@ -306,12 +310,16 @@ func c05WorkflowShape(shape int) {
 		mk := func(k string) *Lambda {
 			return InvokableLambda(func(ctx context.Context, in map[string]any) (map[string]any, error) {
 				if m != nil {
+					vMu.Lock()
 					m.onStart(k)
+					vMu.Unlock()
 				}
 				x := vFoldDeep(in)
-				log.execs = append(log.execs, vExec{k, x})
+				log.add(k, x)
 				if m != nil {
+					vMu.Lock()
 					m.onEnd(k)
+					vMu.Unlock()
 				}
 				return map[string]any{k: vsymUF("f_"+k, x)}, nil
 			})
@@ -541,7 +549,7 @@ func c05ParallelNested() {
 		wf.AddGraphNode("S2", g2, o2...).AddInput(START)
 		wf.AddLambdaNode("c", InvokableLambda(func(ctx context.Context, in map[string]any) (map[string]any, error) {
 			x := vFoldDeep(in)
-			log.execs = append(log.execs, vExec{"c", x})
+			log.add("c", x)
 			return map[string]any{"c": vsymUF("f_c", x)}, nil
 		})).AddInput("S1", ToField("s1")).AddInput("S2", ToField("s2"))
 		wf.End().AddInput("c")
